@@ -207,6 +207,13 @@ func (s *Sym) MakeFn(name string, args ...*RF) *RF {
 				return s.Fn("copyof", args[1])
 			}
 		}
+	case "shr":
+		// x >> 0 is x
+		if len(args) == 2 {
+			if c, ok := args[1].IsConst(); ok && c.Sign() == 0 {
+				return args[0]
+			}
+		}
 	case "shl":
 		// x << c for a constant c is x * 2^c (same wrap-around semantics)
 		if len(args) == 2 {
